@@ -118,12 +118,19 @@ Symbol = Union[ClassInfo, FunctionInfo, External, ModuleInfo, None]
 
 
 class Repo:
-    def __init__(self, root: str = None, overlay: Dict[str, str] = None):
+    def __init__(self, root: str = None, overlay: Dict[str, str] = None, alpha: bool = True):
         self.root = root or os.environ.get("ACSA_REPO", "/repo")
         self.overlay = dict(overlay or {})
         self.modules: Dict[str, ModuleInfo] = {}
         self.by_relpath: Dict[str, ModuleInfo] = {}
         self._parents: Dict[int, Dict[int, ast.AST]] = {}
+        self.alpha_renamed = 0
+        if alpha:
+            from .alpha import load_reference
+
+            self.alpha_ref = load_reference()
+        else:
+            self.alpha_ref = {}
         self._load()
         self._mro_cache: Dict[ClassInfo, List[ClassInfo]] = {}
 
@@ -151,6 +158,10 @@ class Repo:
                 tree = ast.parse(src, filename=rel)
             except SyntaxError as exc:
                 raise AnalysisError(f"{rel} does not parse: {exc}") from exc
+            if self.alpha_ref:
+                from .alpha import normalise_module
+
+                self.alpha_renamed += normalise_module(rel, tree, self.alpha_ref)
             is_pkg = rel.endswith("__init__.py")
             dotted = rel[:-3].replace(os.sep, ".")
             if is_pkg:
